@@ -292,6 +292,11 @@ def _comm(op, a, b):
         return b
     if b == unit:
         return a
+    if isinstance(a, tuple) and isinstance(b, tuple) and len(a) == 2 and len(b) == 2 and a[0] == "c" and b[0] == "c" \
+            and isinstance(a[1], int) and isinstance(b[1], int) and 0 <= a[1] < (1 << 31) and 0 <= b[1] < (1 << 31):
+        v = a[1] + b[1] if op == "+" else a[1] * b[1]
+        if v < (1 << 31):
+            return ("c", v)       # small constants: the sum / product is width-independent
     return (op,) + tuple(sorted((a, b), key=repr))
 
 
